@@ -773,7 +773,7 @@ impl<S4, NI> BSwap for u128x1_sse2<YesS3, S4, NI> {
     #[inline(always)]
     fn bswap(self) -> Self {
         Self::new(unsafe {
-            let k = _mm_set_epi64x(0x0f0e_0d0c_0b0a_0908, 0x0706_0504_0302_0100);
+            let k = _mm_set_epi64x(0x0001_0203_0405_0607, 0x0809_0a0b_0c0d_0e0f);
             _mm_shuffle_epi8(self.x, k)
         })
     }
@@ -781,7 +781,10 @@ impl<S4, NI> BSwap for u128x1_sse2<YesS3, S4, NI> {
 impl<S4, NI> BSwap for u128x1_sse2<NoS3, S4, NI> {
     #[inline(always)]
     fn bswap(self) -> Self {
-        unimplemented!()
+        // reverse the bytes of each 64-bit half, then exchange the halves
+        Self::new(unsafe {
+            _mm_shuffle_epi32(bswap32_s2(_mm_shuffle_epi32(self.x, 0b1011_0001)), 0b0100_1110)
+        })
     }
 }
 
